@@ -63,7 +63,7 @@ SPECS = {
     'C18': dict(level='other', engines=['SRC'], rules=['H-'],
                 what='size_of/align_of/type_name only in the host resolver, table registration and the name printer; every stored TypeInfo flows from the resolver / override / copied datum; lookups return the stored entry unmodified; serde derives symmetric'),
     'C19': dict(level='other', engines=['SRC'], rules=['N-DET'],
-                what='no hash-ordered collection, random source, clock, environment read, address used as identity or order, interior-mutable field or shared static in non-test code of truc'),
+                what='no observation of hash order, random source, clock, environment read, address used as identity or order, interior-mutable field or shared static (other than constant write-once tables) in non-test code of truc'),
     'C20': dict(level='other', engines=['SRC'], rules=['V-'],
                 what='per source variant: removals, then additions, then exactly one close; removed ids go through the id map; added ids recorded in it; the variant map receives (source id -> returned id)'),
 }
